@@ -101,13 +101,18 @@ func c05Heal(r *rng, id string) {
 						time.Sleep(time.Second)
 					}
 					v.crash()
-					time.Sleep(time.Duration(500+r.intn(3000)) * time.Millisecond)
+					newName := r.chance(1, 3)
+					if !(newName && r.chance(2, 3)) {
+						// (a replacement instance under a new name often comes up at once, before anybody has
+						// noticed that the old one is gone)
+						time.Sleep(time.Duration(500+r.intn(3000)) * time.Millisecond)
+					}
 					cl.net.mu.Lock()
 					delete(cl.net.nodes, v.tr.addr)
 					cl.net.mu.Unlock()
 					var nv *simNode
 					var err error
-					if r.chance(1, 3) {
+					if newName {
 						// the address is taken over by a member with a new name: the old name is gone for good
 						nv, err = cl.net.newNamedNode(idx, fmt.Sprintf("x%d", idx), c, cl.t0)
 						departed[v.name] = true
